@@ -326,7 +326,7 @@ func (self *linkedPairs) Get(key string) (*Pair, int) {
 		i, ok := self.index[caching.StrHash(key)]
 		if ok {
 			n := self.At(i)
-			if n.Key == key && !n.unset() {
+			if n != nil && n.Key == key && !n.unset() {
 				return n, i
 			}
 			// hash conflicts, or the slot has been unset
